@@ -206,7 +206,7 @@ def explore(fn, *, budget_s=60.0, per_path_s=30.0, shard=(0, 1), shard_of=None,
     s0 = dict(SOLVER)
     st = dict(paths=0, confirmed=0, ignored=0, unknown=0, refuted=0, cex=[], exhausted=False,
               native_ok=0, discrepancies=[], native_assume_mismatch=0, samples=[],
-              unknown_reasons={}, twin_reached=False)
+              unknown_reasons={}, twin_reached=False, suspects=[])
     reps = set()
     profiled = 0
     with condition_parser([AnalysisKind.PEP316]), Patched(), COMPOSITE_TRACER, NoTracing():
@@ -293,6 +293,10 @@ def explore(fn, *, budget_s=60.0, per_path_s=30.0, shard=(0, 1), shard_of=None,
                             st['unknown_reasons'].get('traced-native-discrepancy', 0) + 1
                         if len(st['discrepancies']) < 5:
                             st['discrepancies'].append({'args': _jsonable(rep), 'traced': msg, 'native': nat})
+                        # a failure that shows only the FIRST time in a process (e.g. a call that permanently changes module-level
+                        # state) cannot reproduce in this process: hand it to the fresh-process replay, which is the arbiter
+                        if len(st['suspects']) < 3:
+                            st['suspects'].append({'args': _jsonable(rep), 'message': msg, 'traced': 'refuted; native re-run in the same process passed'})
                 if len(st['cex']) >= max_cex:
                     break
             if exhausted:
